@@ -45,7 +45,7 @@ pub fn expected_items(m: &VcfModel) -> Vec<String> {
     let mut v = Vec::with_capacity(m.records.len() + 1);
     v.push(format!("H|{}", m.header));
     for r in &m.records {
-        v.push(format!("R|{r}"));
+        v.push(format!("R|{}", crate::genr::vcf::canonical_line(r)));
     }
     v
 }
